@@ -424,9 +424,11 @@ static int do_next(cron_expr* expr, struct tm* calendar, unsigned int dot) {
     second = calendar->tm_sec;
     update_second = find_next(expr->seconds, CRON_MAX_SECONDS, second, calendar, CRON_CF_SECOND, CRON_CF_MINUTE, empty_list, &res);
     if (0 != res) goto return_result;
-    if (second == update_second) {
-        push_to_fields_arr(resets, CRON_CF_SECOND);
-    }
+    /* The seconds must always be among the fields that are reset when a higher field moves on:
+     * unlike the fields below there is no recursion after the seconds were advanced within the
+     * minute (e.g. 20 -> 40 for "10,40"), so without the reset "10,40 10 * * * *" asked at
+     * hh:05:20 would answer hh:10:40 and skip hh:10:10. */
+    push_to_fields_arr(resets, CRON_CF_SECOND);
 
     minute = calendar->tm_min;
     update_minute = find_next(expr->minutes, CRON_MAX_MINUTES, minute, calendar, CRON_CF_MINUTE, CRON_CF_HOUR_OF_DAY, resets, &res);
